@@ -6,12 +6,20 @@ V = os.path.dirname(os.path.dirname(os.path.abspath(__file__)))
 TECH = "explicit TLA+ specification; TLC model-checks its laws (mutant twins must fail), generates the cases, and judges the outcomes recorded from the real Go code"
 
 CHECKS = {
+ "C01": ("The call protocol of the public API (idle -Call-> called -Return(ok|err|cerr)-> idle; panic and non-termination are not actions; the may-panic mutant twin must violate OutcomesAreReturns, and EveryCallReturns is checked as a liveness property under fairness) and the boundary alphabet are specified in TLA+; TLC generates every (function, arity) of the implementation's own tables x receivers and arguments from the boundary pool, every binary operator x pool x pool, polarity, indexer, is/as, EvaluateAs*, token sequences with and without separators, the patch matrix (add/insert/delete/replace/move x paths x value classes incl. nil x nil resource) and generic programs over schema-generated resources of every type; seeded byte-mutated sources are added by the harness. Every call runs under recover and a deadline; TLC judges that it returned.",
+         "Bounded: the pools and matrices in spec/C01.tla; per-call deadline 5 s with one 50 s retry before a timeout is reported. Trusted: TLC, C01 text, the harness guard (lib/exec.go).", "DESIGN.md section 6 C01"),
  "C02": ("TLC walks every element-name path of every generated resource's annotated FHIR JSON tree; at every state it checks that step-wise navigation (FPNav) equals the independent characterisation 'all nodes in document order with this name path', that indexers are positional and that unknown names are errors (mutant twins: first-child-only, reversed order, no flattening must fail), and emits paths, indexed paths, per-node paths, .value reads, unknown and absent names and mismatched roots. Every case is evaluated by the real Compile/Evaluate on the very resource the tree was rendered from, and TLC judges the result item by item (address identity for input nodes, content hash for contained resources, value for primitives).",
          "Bounded: generated resources (schema-driven from google/fhir descriptors, all 146 types in the thorough tier) and their own paths; trusted: TLC, FPNav text, google/fhir jsonformat (tree rendering), the annotator (self-checked: every JSON member has a node).", "DESIGN.md section 6 C02"),
  "C07": ("TLC checks EmptyPropagates on the abstract machine (every non-aggregate function FPEval models maps the empty focus to the empty result; comparison and equality with an empty operand are empty; classification tables well formed; two mutant twins must fail) and generates the exhaustive case set: every operator x operand position and every name of the IMPLEMENTATION's base and experimental function tables (read at run time through funcs.Clone()) x every accepted arity, with the input empty and with every single-value argument empty, each supplied as {} literal, absent path and empty variable. Every case runs through Compile/Evaluate and is judged by TLC against the specification's permitted sets.",
          "Exhaustive over the space the quantifier names for the functions in the implementation's table at run time; a function unknown to the specification is still exercised (empty or error permitted, never a value or a crash). Trusted: TLC, C07/FPEval text, harness projection.", "DESIGN.md section 6 C07"),
  "C12": ("TLC checks the type lattice of FPTypes over the type table read from the google/fhir descriptors (reflexive, transitive, every type reaches Element or Resource in at most 5 steps, primitives specialise, namespaces disjoint, FHIR-first resolution; two mutant twins must fail) and generates the cases: for every generated resource the first node of every message type and choice-typed nodes x {is, as} x {declared type, ancestors, sibling types, other letter case, Element, BackboneElement, Resource, DomainResource, System counterpart} x namespaces {none, FHIR, System, unknown}, and 10 System values x every FHIR/System type name. Every case runs through Compile/Evaluate; TLC judges truth value, identity of the item returned by `as`, and Compile rejection of unknown names/namespaces.",
          "Bounded: generated resources as in C02 (all 146 types in the thorough tier); `X is BackboneElement` for top-level data types, xhtml and System.Any are left open as the property does not address them. Trusted: TLC, FPTypes text, the descriptor annotations, harness projection.", "DESIGN.md section 6 C12"),
+ "C13": ("FPConvert states the FHIRPath conversion table as TLA+ recognisers over code-point strings and abstract values (To(T,x), Convertible(T,x), canonical ToStr); TLC checks convertsToT <=> toT non-empty, result typing, idempotence and string round trips on the value pool (four mutant twins must fail) and generates the cases (every pool item as literal, environment variable and FHIR element, complex elements, a 210-string grammar pool and seeded strings x 8 targets x toT / convertsToT / toT().toT() / toString().toT()); TLC judges every observation. See docs/notes/C13.md.",
+         "Bounded: pools in spec/C13*.tla; readings the property leaves open (FPConvert!Amb) are accepted either way. Trusted: TLC, FPConvert text, harness projection.", "DESIGN.md section 6 C13; docs/notes/C13.md"),
+ "C16": ("FPFunctions is the FHIRPath N1 function list as a TLA+ table (74 names: allowed argument counts, status, default call, distinguishing probes); TLC checks its well-formedness and the Compile-acceptance rule (four mutant twins must fail) and generates every name x argument count 0..4 x {default, WithExperimentalFuncs}; the harness compiles each (also in argument position), evaluates accepted calls and probes; TLC judges Compile acceptance against the implementation's table, the table against the specification, absence of arity complaints at evaluation, probe values (binding to the implementation of that name) and not-implemented names. See docs/notes/C16.md.",
+         "Exhaustive over names x counts 0..4 x two configurations. Trusted: TLC, FPFunctions text (written from the FHIRPath N1 specification), harness projection.", "DESIGN.md section 6 C16; docs/notes/C16.md"),
+ "C17": ("FPOptions models option folding for Evaluate and Compile as a state machine (pre-seeded context/ucum, EnvVariable and AddFunction as actions, errors accumulate, any error blocks evaluation) with a reference evaluator for the small program language; TLC explores all option lists of length 0..4 (781 Evaluate lists, 1555 Compile lists under two naming schemes), checks OptionErrorBlocksEval, ErrorsAccumulate, ErrorClasses, FirstWins, order independence (six mutant twins must fail) and emits the cases x programs; instrumented custom functions make 'nothing was evaluated' observable; TLC judges error classes, values, invocation counts. See docs/notes/C17.md.",
+         "Exhaustive for lists of length 0..4 (thorough adds length 5 by simulation). Compile-side errors are judged as errors only (the repository exports no sentinel for them). Trusted: TLC, FPOptions text, harness.", "DESIGN.md section 6 C17; docs/notes/C17.md"),
  "C10": ("The interpreter's abstract machine (FPEval: big-step evaluator over the annotated tree, with where/select/exists/all/empty/count/first/last/tail/skip/take/indexer/distinct/isDistinct/exclude/intersect/extension/not/iif/allTrue... and criteria evaluated per item) is model-checked by TLC for the collection algebra at every focus of the pool (first = [0] = take(1), tail = skip(1), last = skip(count-1), take(n) ++ skip(n) = c for all n, exists(p) = where(p).exists(), all(p), distinct/isDistinct, exclude, extension(u) = extension.where(url=u); four mutant twins must fail). TLC emits every case; each is executed by the real Compile/Evaluate and judged by TLC: exact item identity and order for where/select/subsetting/exclude, acceptance predicates (one representative per equality class, no null item) for distinct/intersect.",
          "Bounded: 13 foci on model resources MR1/MR4 and environment collections, 16 criteria, 8 projections, n in [-3, count+3] and int32 boundaries, 9 overlap collections; cases whose criteria outcome the properties leave open are counted as unconstrained in the evidence. Trusted: TLC, FPEval/FPNav/FPCompare text, the harness projection.", "DESIGN.md section 6 C10"),
  "C03": ("FPSlices models Go slice aliasing (backing arrays, offset/length/capacity, sub-slicing by tail/skip/take, append with spare capacity); TLC explores every behaviour of a caller-owned slice under pipelines of steps and checks CallerArraysFrozen (invariant and action property), with the in-place-append mutant twin required to fail. Every behaviour is replayed with real Go slices (strings, and nodes of the resource) whose spare capacity holds sentinels; in addition every program of the abstract machine's generator (all collection functions, criteria, set functions over collections aliasing resource nodes, failing and succeeding) is run with before/after snapshots of every caller-owned object. TLC judges each record: no mutation flag (bytes, proto.Equal, presence bits, slice header, cells up to capacity, content) and every result element is one of the input's own nodes.",
